@@ -533,6 +533,8 @@ def build_case(root, cfg, args, stdin, oracle):
     line = 'C06 run %d %d %d %d %s %s %s %s %s' % (
         1 if cfg['gunzip'] else 0, 1 if cfg['recursive'] else 0, cfg['readers'], cfg['batch'], cfg['mode'],
         hxl([enc(a) for a in args]), ','.join(fs_ents) if fs_ents else '.', ','.join(file_ents) if file_ents else '.', hx(stdin))
+    if cfg.get('stdin_is_dir'):
+        line += ' stdinfails'
     return line, sorted(paths | {'<stdin>'}, key=len, reverse=True)
 
 
@@ -688,12 +690,19 @@ def run(ctx):
             kinds['file:' + k] = kinds.get('file:' + k, 0) + 1
         for _ in range(per_tree):
             args = gen_args(rnd, dirs, files)
+            healthy = [f for f, k in sorted(files.items()) if k in ('plain', 'empty', 'gzip', 'gzip-multi', 'gzip-of-empty', 'plain-looks-gzip')
+                       and not _has_meta(f)]
+            if healthy and rnd.intn(3) == 0:  # a run in which every input is readable
+                args = [rnd.pick(healthy) for _ in range(rnd.pick([1, 2, 3, 5]))]
             mode = rnd.pick(['all', 'all', 'all', 'all', 'byte:107', 'byte:49', 'histo'])
             cfg = {'gunzip': rnd.intn(2) == 0, 'recursive': rnd.intn(3) == 0,
                    'readers': rnd.pick([0, -1, 1] if rnd.intn(30) == 0 else [1, 2, 3, 8]),
                    'batch': rnd.pick([0, -5, 1] if rnd.intn(30) == 0 else [1, 2, 3, 1000]),
                    'workers': rnd.pick([1, 2, 4]), 'mode': mode}
             stdin = gen_text(rnd, numeric=(mode == 'histo'))
+            if (not args or args[0] == '-') and rnd.intn(4) == 0:
+                cfg['stdin_is_dir'] = True   # standard input is a directory: the first Read fails (EISDIR)
+                stdin = b''
             bc = build_case(root, cfg, args, stdin, oracle)
             jobs.append((bc[0], cfg, args, stdin, root, bc[1]))
     oracle.close()
@@ -708,7 +717,7 @@ def run(ctx):
     violations = [{'key': 'gzip-oracle-disagreement', 'kind': 'oracle', 'detail': d,
                    'explanation': 'compress/gzip and the independent RFC1952/zlib computation disagree about this file'}
                   for d in oracle.disagreements[:3]]
-    stats = {'exit0': 0, 'exit1': 0, 'exit2': 0, 'usage': 0, 'stdin': 0, 'with_read_error': 0, 'with_open_error': 0,
+    stats = {'exit0': 0, 'exit1': 0, 'exit2': 0, 'usage': 0, 'stdin': 0, 'stdin_read_error': 0, 'with_read_error': 0, 'with_open_error': 0,
              'with_gunzip_fallback': 0, 'with_path_error': 0, 'recursive_walks': 0, 'histo_parse_error_exit': 0,
              'stdout_lines': 0}
     runs = 0
@@ -720,7 +729,14 @@ def run(ctx):
             continue
         cmd = cli_cmd(exe, cfg, args)
         try:
-            pr = subprocess.run(cmd, cwd=root, input=stdin, stdout=subprocess.PIPE, stderr=subprocess.PIPE, timeout=60, env=env)
+            if cfg.get('stdin_is_dir'):
+                fd = os.open(root, os.O_RDONLY)
+                try:
+                    pr = subprocess.run(cmd, cwd=root, stdin=fd, stdout=subprocess.PIPE, stderr=subprocess.PIPE, timeout=60, env=env)
+                finally:
+                    os.close(fd)
+            else:
+                pr = subprocess.run(cmd, cwd=root, input=stdin, stdout=subprocess.PIPE, stderr=subprocess.PIPE, timeout=60, env=env)
         except subprocess.TimeoutExpired:
             violations.append({'key': 'e2e-hang', 'kind': 'hang', 'cmd': cmd[1:], 'tree': root,
                                'explanation': 'the real CLI did not terminate on this input set'})
@@ -739,6 +755,8 @@ def run(ctx):
             stats['histo_parse_error_exit'] += 1
         if not args or args[0] == '-':
             stats['stdin'] += 1
+            if 'readerr:' + hx(b'<stdin>') in lg:
+                stats['stdin_read_error'] += 1
         if cfg['recursive'] and any(os.path.isdir(os.path.join(root, a)) for a in args):
             stats['recursive_walks'] += 1
         if diffs and len(violations) < 5:
@@ -758,6 +776,6 @@ def run(ctx):
             'assumptions': [
                 'e2e oracle data (filepath.Glob/Match port, lstat walk, RFC1952 header rules, zlib inflate) is computed by extra/C06.py; '
                 'a wrong oracle shows up as a mismatch, not as silence',
-                'faults used: missing path, ENOTDIR path, directory given as file, dangling symlink, truncated gzip (any cut), bad gzip '
+                'faults used: missing path, ENOTDIR path, directory given as file, a directory as standard input, dangling symlink, truncated gzip (any cut), bad gzip '
                 'trailer, bad stored-block length, trailing garbage, corrupt header (fallback); permission faults cannot be produced as root',
                 'OS file semantics, filepath.Glob/Walk and compress/gzip are oracle parameters of the model (not verified)']}
